@@ -195,6 +195,12 @@ def _run_check(cid, tier, spec, workdir, tmp, t_start):
         try:
             rc = p.wait(timeout=remaining)
         except subprocess.TimeoutExpired:
+            # ask the Go runtime for a goroutine dump first (lands in the shard log)
+            try:
+                p.send_signal(3)
+                p.wait(timeout=10)
+            except Exception:
+                pass
             p.kill()
             p.wait()
             rc = -9
